@@ -164,6 +164,11 @@ def run(ctx):
             "processor and progress passes the failed block" % [m.text(50) for m in releases[:2]], where(feeder, s.stmt),
             "block k fails; parked or next reply delivers k+1..; commit passes k")
 
+    if last_eb is not None and prog.resolve_callable(feeder, last_eb["eb"]) is not None:
+        from .util import reports_unless_stop_induced
+        reports_unless_stop_induced(ctx, r, prog.resolve_callable(feeder, last_eb["eb"]),
+                                    lambda c: call_name(c) == "errback" and call_recv(c) == "self._start_d", "processor failure handler")
+
     # ---- R3 commit value snapshot
     r = ctx.rule("R3", "one read of the processed offset feeds the commit request and the recorded committed value", 2,
                  "A")
@@ -295,6 +300,9 @@ MUTANTS = [
      "old": "            if response.offset == OFFSET_NOT_COMMITTED:\n                if self.auto_offset_reset == OFFSET_LATEST:\n                    self._fetch_offset = OFFSET_LATEST\n                else:\n                    self._fetch_offset = OFFSET_EARLIEST\n            else:\n                self._fetch_offset = response.offset + 1\n                self._last_committed_offset = response.offset",
      "new": "            if response.offset and response.offset != OFFSET_NOT_COMMITTED:\n                self._fetch_offset = response.offset + 1\n                self._last_committed_offset = response.offset\n            elif self.auto_offset_reset == OFFSET_LATEST:\n                self._fetch_offset = OFFSET_LATEST\n            else:\n                self._fetch_offset = OFFSET_EARLIEST",
      "expect": "C03.R5", "note": "seeded C03-2"},
+    {"id": "processor-cancel-swallowed-when-running", "file": "consumer.py",
+     "old": "        if not (self._stopping and failure.check(CancelledError)):\n            if self._start_d:",
+     "new": "        if not (self._stopping or failure.check(CancelledError)):\n            if self._start_d:", "expect": "C03.R2", "note": "seeded C03-3"},
     {"id": "no-generation", "file": "consumer.py", "old": "            group_generation_id=self.commit_generation_id,\n", "new": "",
      "expect": "C03.R7"},
     {"id": "second-writer", "file": "consumer.py", "old": "        self._processor_d = None  # It has fired, we can clear it\n",
